@@ -1026,7 +1026,7 @@ func init() {
 	Checks["C15"] = func(r *evid.Run) {
 		registerStandardExt()
 		c15stats = NewStats()
-		dl := deadline(r, 55*time.Second, 20*time.Minute)
+		dl := deadline(r, 120*time.Second, 20*time.Minute)
 		exploreChoiceOpts(r, "c15.returned-bytes", -1, dl, 1)
 		exploreChoiceOpts(r, "c15.after-failed-serialise", -1, dl, 1)
 		exploreChoiceOpts(r, "c15.same-name-types", -1, dl, 1)
